@@ -207,10 +207,9 @@ func cmdCheck(argv []string) int {
 			if pk == nil || !strings.HasSuffix(pk.Pkg.Path(), sw) {
 				continue
 			}
-			if fn.Parent() != nil { // closures are verified through their parents (inlined) unless contracted
-				if _, ok := p.CS.Funcs[key]; !ok {
-					continue
-				}
+			// functions without a contract are verified in context (inlined into their callers)
+			if _, ok := p.CS.Funcs[key]; !ok {
+				continue
 			}
 			if fn.Name() == "init" {
 				continue
